@@ -1,7 +1,7 @@
 """C12 — timeouts bound every blocking step on real sockets (partial: the logical core is proved, the OS is measured)."""
 import random
 import vlib
-from props import netprops
+from props import netprops, httpplan
 
 LEVEL = "other"
 RULE = ("real sockets, no scripted transport: Valve queries against an in-process loopback UDP server (IPv4 and IPv6) that answers the "
@@ -15,7 +15,13 @@ RULE = ("real sockets, no scripted transport: Valve queries against an in-proces
         "much of a reply had arrived); the Eco query through the HTTP client against a peer that is mute / stalls in the head / in the body, "
         "read timeout 150 ms with write and connect timeouts of 2 s (one read timeout must bound the wait); every UDP family (Quake, GameSpy 1/2/3, "
         "Unreal 2, Bedrock, Valve) on real sockets against a server replaying a valid exchange up to a cut point (result, requests seen, wall "
-        "clock vs the model of the cut exchange; read timeout 60 ms, write / connect timeouts of seconds). Non-trivial = every case.")
+        "clock vs the model of the cut exchange; read timeout 60 ms, write / connect timeouts of seconds); the HTTP client inside the model "
+        "(`http-plan`, generator `httperr`): every failure class of the transport — refused, connection attempt not answered (full accept "
+        "queue), mute, closing, stalling / closing after the status line, garbage, error statuses, body stalling / closing at three "
+        "depths of a real Eco document, no / bad Content-Length, bodies that are not the document, redirects ending in a mute or "
+        "stalling peer — x eco / get_json / get x both families, read 150 ms / write 1.3 s / connect 0.7 s: result, connections and request "
+        "heads = the model's; independently: the error class per behaviour, elapsed <= the ONE timeout the behaviour can run into + slack "
+        "and >= 0.6 of it (which duration bounds which wait), no wait at all for behaviours that do not block. Non-trivial = every case.")
 ASSUMPTIONS = ["scheduling slack of 250 ms + 60 ms per timed-out step is allowed on top of the bound",
                "that SO_RCVTIMEO / connect_timeout are honoured by the OS is measured here, not proved"]
 TRUSTED = ["Lean theorems C12_valve_blocking_bound, C12_gs2_blocking_bound, C12_minecraft_java_blocking_bound / _silent_server give the number of "
@@ -44,9 +50,13 @@ def single_datagram_cases(seed, n):
 def run(rep, tier, seed, replay=None):
     rnd = random.Random(seed)
     cases, meta = [], {}
+    http_lines = []
     if replay is not None:
-        cases = replay
+        http_lines = [l for l in replay if httpplan.is_http(l)]
+        cases = [l for l in replay if not httpplan.is_http(l)]
     else:
+        # the HTTP client inside the model: every failure class, three calls, both families (long waits side by side)
+        http_lines = httpplan.gen("httperr", seed + 12, 87 if tier == "quick" else 435) + [l for l in netprops.corpus("C12") if httpplan.is_http(l)]
         bases = single_datagram_cases(seed + 12, 200)[: (4 if tier == "quick" else 30)]
         k = 0
         for v, c in bases:
@@ -167,6 +177,8 @@ def run(rep, tier, seed, replay=None):
                 cases.append(line)
                 sent = [dd for (_, _, dd, failed) in vlib.sends_of(mo) if not failed]
                 famreal[i] = (vlib.result_of(mo), sent, blocked, ms, fam_)
+    for o in httpplan.run(rep, http_lines, "c12hp", lanes=3 if tier == "quick" else 5, count="kind:http-plan"):
+        httpplan.c12_oracle(rep, o)
     model = vlib.run_model([c for c in cases if c.split(" ")[1] != "realfam"])
     # the long-timeout cases side by side (they sleep most of the time), the rest one after the other
     slow = [c for c in cases if c.split(" ")[1] in ("realfam", "realudp", "realgs2", "realjava") and c.split(" ")[3] in ("400", str(LONG))]
